@@ -5,6 +5,8 @@ import json, subprocess
 props=[json.loads(l) for l in open('/verif/properties.jsonl')]
 hooks_commits=subprocess.run(['git','-C','/repo','log','--format=%h','--reverse','--grep=^verif hooks'],capture_output=True,text=True).stdout.split()
 C={
+ "C18":("exploration","complete enumeration of a committed golden corpus written by the pinned commit (read side) + bounded exhaustive history enumeration with an independent reader of the documented format for segments, index files and metadata (write side)",
+        "finite corpus (14 directories) generated once from the pinned commit; gob metadata pinned by field names and by the corpus"),
  "C16":("exploration","exhaustive enumeration of a boundary alphabet of key/value lengths x record positions x segment capacities with byte-exact round-trip oracles (now / after recovery / after restart), and of over-long probes with forged hash collisions and shared prefixes with atomic-rejection oracles",
         "boundary alphabet, not the full 2^16 x 2^29 range; listed in the evidence rule"),
  "C14":("model_checking","bounded exhaustive operation-sequence enumeration after a fixed set of reads, on a harness file system in mmap-lifetime mode (memory handed out by File.Slice poisoned on every write/truncate/close) and on the real fs.OSMMap/fs.OS with faults turned into panics; returned-slice-stability and input-slice-independence oracles",
@@ -60,6 +62,6 @@ for p in claimed:
       "level_claimed":{"category":lvl,"text":tech,"design_ref":"DESIGN.md section 3, "+p},"level_note":note,"technique":tech})
 for p in props:
     if p['id'] not in C:
-        m["not_applicable"].append({"property_id":p['id'],"reason":"check still under construction in this session (design in DESIGN.md section 3); not claimed until it runs green"})
+        m["not_applicable"].append({"property_id":p['id'],"reason":"no check registered"})
 json.dump(m,open('/verif/MANIFEST.json','w'),indent=1)
 print("claimed:",claimed)
